@@ -882,7 +882,7 @@ func (e *Engine) scanCalls(rule CWRule) []string {
 					}
 				}
 				for _, f := range refs {
-					if e.inRepo(f) {
+					if e.inRepo(f) || f.Synthetic == "package initializer" {
 						continue
 					}
 					pp := ""
